@@ -11,8 +11,9 @@ import (
 var ErrInjected = errors.New("verif: injected I/O fault")
 
 // FaultWriter accepts exactly Limit bytes and then fails.
-//   Short:   the failing call accepts what still fits and returns (n, err); otherwise it accepts nothing from the failing call
-//   OneShot: only one call fails; later calls succeed again (a serializer that drops the error leaves a hole)
+//
+//	Short:   the failing call accepts what still fits and returns (n, err); otherwise it accepts nothing from the failing call
+//	OneShot: only one call fails; later calls succeed again (a serializer that drops the error leaves a hole)
 type FaultWriter struct {
 	Limit    int
 	Short    bool
